@@ -56,7 +56,7 @@ fn err_name(e: &Error) -> String {
     }
 }
 
-fn check_constructors(c: &mut Ctx, v: u64) {
+pub fn check_constructors(c: &mut Ctx, v: u64) {
     c.eval();
     c.distinct(&format!("ctor/{}", v));
     let expect_ok = v <= MAXB;
@@ -111,7 +111,7 @@ fn check_constructors(c: &mut Ctx, v: u64) {
     }
 }
 
-fn check_try_add(c: &mut Ctx, a: u64, b: u64) {
+pub fn check_try_add(c: &mut Ctx, a: u64, b: u64) {
     if a > MAXB || b > MAXB {
         return;
     }
